@@ -41,8 +41,11 @@ import (
 // disk) under an HTTP listener.  Every request's raw path segment is taken verbatim from the op record;
 // after each request the directory tree OUTSIDE the store's upload/cache directories is compared with
 // its state before the request.
-//   tagsrv op put <raw segment> => <class> <changes outside | ->
-//   tagsrv op get <raw segment> => <class> <changes outside | ->
+//   tagsrv op put|dupput|get|head|replicate <raw segment> => <class> <every path under the test root that changed | ->
+// (PUT /tags/{tag}/digest/{d}, PUT /internal/duplicate/tags/{tag}/digest/{d}, GET /tags/{tag}, HEAD /tags/{tag},
+//  POST /remotes/tags/{tag}).  The snapshot covers the whole test root, store directories included; which of
+// the changes the request was entitled to is judged by the driver.  `data` sentinels sit at every level a
+// mis-resolved entry could alias (<root>/data, <store>/data, <upload>/data, <cache>/data).
 
 type c11NoHosts struct{}
 
@@ -63,9 +66,6 @@ func c11Snapshot(e *c11Env) map[string]string {
 			return nil
 		}
 		rel, _ := filepath.Rel(e.root, p)
-		if (strings.HasPrefix(p, e.upload+"/") || strings.HasPrefix(p, e.cache+"/")) && info != nil {
-			return nil // inside a store directory
-		}
 		if info.IsDir() {
 			snap[rel] = "d"
 			return nil
@@ -92,8 +92,8 @@ func c11Diff(a, b map[string]string) string {
 		}
 	}
 	sort.Strings(out)
-	if len(out) > 6 {
-		out = append(out[:6], "more")
+	if len(out) > 14 {
+		out = append(out[:14], "+more")
 	}
 	for i := range out {
 		out[i] = verifh.Str(out[i])
@@ -116,8 +116,6 @@ func c11NewEnv(t *testing.T) *c11Env {
 	}
 	os.WriteFile(filepath.Join(root, "outer-sentinel"), []byte("outer"), 0644)
 	os.WriteFile(filepath.Join(e.storeDir, "sentinel"), []byte("inner"), 0644)
-	// a file that a ".." entry would alias: <store>/data
-	os.WriteFile(filepath.Join(e.storeDir, "data"), []byte(c11SentinelDigest), 0644)
 	e.stop = append(e.stop, func() { os.RemoveAll(root) })
 
 	ctrl := gomock.NewController(t)
@@ -126,9 +124,14 @@ func c11NewEnv(t *testing.T) *c11Env {
 		panic(err)
 	}
 	e.stop = append(e.stop, ss.Close)
+	// files that a mis-resolved entry would alias, at every level
+	for _, d := range []string{root, e.storeDir, e.upload, e.cache} {
+		os.WriteFile(filepath.Join(d, "data"), []byte(c11SentinelDigest), 0644)
+	}
 	backends := backend.ManagerFixture()
 	bc := mockbackend.NewMockClient(ctrl)
 	bc.EXPECT().Download(gomock.Any(), gomock.Any(), gomock.Any()).Return(backenderrors.ErrBlobNotFound).AnyTimes()
+	bc.EXPECT().Stat(gomock.Any(), gomock.Any()).Return(nil, backenderrors.ErrBlobNotFound).AnyTimes()
 	if err := backends.Register(".*", bc, false); err != nil {
 		panic(err)
 	}
@@ -172,9 +175,13 @@ func c11Class(code int) string {
 }
 
 // c11Do sends the request with the path exactly as given (no client-side escaping or cleaning).
-func c11Do(method, addr, rawPath string) string {
+func c11Do(method, addr, rawPath string, body ...string) string {
 	req := &http.Request{Method: method, Host: addr, Header: http.Header{},
 		URL: &url.URL{Scheme: "http", Host: addr, Opaque: rawPath}}
+	if len(body) > 0 {
+		req.Body = io.NopCloser(strings.NewReader(body[0]))
+		req.ContentLength = int64(len(body[0]))
+	}
 	resp, err := http.DefaultClient.Do(req)
 	if err != nil {
 		return "transport-error"
@@ -204,6 +211,12 @@ func c11TagExec(t *testing.T, tr *verifh.T, c verifh.Case) {
 			cls = c11Do("PUT", e.addr, "/tags/"+seg+"/digest/"+digest)
 		case "get":
 			cls = c11Do("GET", e.addr, "/tags/"+seg)
+		case "head":
+			cls = c11Do("HEAD", e.addr, "/tags/"+seg)
+		case "replicate":
+			cls = c11Do("POST", e.addr, "/remotes/tags/"+seg)
+		case "dupput":
+			cls = c11Do("PUT", e.addr, "/internal/duplicate/tags/"+seg+"/digest/"+digest, `{"delay":0}`)
 		default:
 			continue
 		}
@@ -245,8 +258,12 @@ func TestVerif_C11TagServer(t *testing.T) {
 	op := func(v, seg string) []string { return []string{"op", v, verifh.Str(seg)} }
 	// (a) every piece and every pair of pieces: PUT then GET
 	var singles []string
+	lead := map[string]bool{".": true, "..": true, "%2e": true, "%2E": true, "%2F": true, "%25": true, "a": true, "%": true}
 	for _, a := range c11TagPieces {
 		singles = append(singles, a)
+		if !lead[a] && !verifh.Thorough() {
+			continue // quick tier: pairs that start with a dot, separator, escape or plain piece
+		}
 		for _, b := range c11TagPieces {
 			singles = append(singles, a+b)
 		}
@@ -254,10 +271,15 @@ func TestVerif_C11TagServer(t *testing.T) {
 	singles = append(singles, "..%2Fx", "..%2F..%2Fx", "a%2F..%2F..%2Fx", "a%2F..%2Fb", "%2E%2E%2Fstore%2Fsentinel",
 		"..%2Fupload%2Fx", "%252e%252e%252Fx", "a%2F.%2Fb", "a%2F%2Fb", "%2Fetc%2Fx", "a%2F")
 	// one case per segment and verb order (a DIFF ends a case, so every request must come first in some case)
-	for _, sg := range singles {
-		c11TagExec(t, tr, verifh.Case{Ops: [][]string{op("put", sg), op("get", sg)}})
-		c11TagExec(t, tr, verifh.Case{Ops: [][]string{op("get", sg), op("put", sg), op("get", sg)}})
+	for i, sg := range singles {
+		c11TagExec(t, tr, verifh.Case{Ops: [][]string{op("put", sg), op("get", sg), op("replicate", sg)}})
+		c11TagExec(t, tr, verifh.Case{Ops: [][]string{op("get", sg), op("head", sg), op("put", sg), op("get", sg)}})
 		tr.Count("exhaustive_pairs_cases", 2)
+		if i%3 == 0 || len(sg) > 6 {
+			c11TagExec(t, tr, verifh.Case{Ops: [][]string{op("dupput", sg), op("get", sg)}})
+			c11TagExec(t, tr, verifh.Case{Ops: [][]string{op("replicate", sg), op("head", sg)}})
+			tr.Count("exhaustive_pairs_cases", 2)
+		}
 	}
 	// (b) random sequences
 	r := verifh.NewRand(verifh.Seed(), "c11tag")
@@ -270,7 +292,7 @@ func TestVerif_C11TagServer(t *testing.T) {
 				s = used[r.Intn(len(used))]
 			}
 			used = append(used, s)
-			c.Ops = append(c.Ops, op(r.Pick("put", "get", "put"), s))
+			c.Ops = append(c.Ops, op(r.Pick("put", "get", "put", "dupput", "head", "replicate", "get"), s))
 		}
 		c11TagExec(t, tr, c)
 		tr.Count("random_cases", 1)
